@@ -5,9 +5,12 @@ use crate::util::*;
 use kira::clock::{ClockId, ClockTime};
 use kira::info::MockInfoBuilder;
 use kira::sound::static_sound::{StaticSoundData, StaticSoundHandle, StaticSoundSettings};
+use kira::sound::streaming::{Decoder, StreamingSoundData, StreamingSoundHandle};
 use kira::sound::{PlaybackPosition, PlaybackState, Region, Sound, SoundData};
-use kira::{Easing, Frame, StartTime, Tween};
-use std::time::Duration;
+use kira::track::{MainTrackBuilder, TrackBuilder, TrackHandle};
+use kira::{Capacities, Easing, Frame, PlaySoundError, StartTime, Tween};
+use std::sync::{Arc, Condvar, Mutex};
+use std::time::{Duration, Instant};
 
 const SR: u32 = 1024; // dt = 2^-10 s: sample_rate * rate * dt is exactly 1
 
@@ -127,16 +130,21 @@ fn make_sound(ids: &[ClockId], sc: &Scenario) -> (Box<dyn Sound>, StaticSoundHan
 }
 
 fn run_scenario(ids: &[ClockId], sc: &Scenario) -> Trace {
+	run_with(ids, &sc.cbs, || make_sound(ids, sc))
+}
+
+/// drives a static sound built by `mk` through the callbacks `cbs`
+fn run_with(ids: &[ClockId], cbs: &[Cb], mk: impl FnOnce() -> (Box<dyn Sound>, StaticSoundHandle)) -> Trace {
 	let _ = kira::verif::take_powf32_log();
 	let mut per_cb = vec![];
 	let mut per_call = vec![];
 	let r = catch(|| {
-		let (mut sound, mut handle) = make_sound(ids, sc);
+		let (mut sound, mut handle) = mk();
 		let mut obs = vec![];
 		let mut per = vec![];
 		let mut calls = vec![];
 		let dt = 1.0 / SR as f64;
-		for (cbi, cb) in sc.cbs.iter().enumerate() {
+		for (cbi, cb) in cbs.iter().enumerate() {
 			if let Some(t) = &cb.pause {
 				handle.pause(mk_tween(ids, t));
 			}
@@ -284,6 +292,11 @@ fn gen_scenario(r: &mut Rng) -> Scenario {
 
 /// property monitors evaluated on the implementation's trace
 fn monitors(s: &mut Session, desc: &str, sc: &Scenario, tr: &Trace) {
+	monitors_on(s, desc, &sc.cbs, tr, true)
+}
+/// `check_pos`: a streaming sound's reported position is the index of ring slot 1, which appears when the decoder
+/// delivers a late frame, whatever the playback state; the position clause is checked there against the model
+fn monitors_on(s: &mut Session, desc: &str, cbs: &[Cb], tr: &Trace, check_pos: bool) {
 	if tr.panicked {
 		s.fail(desc.to_string(), "panic while driving the sound".into(), None);
 		return;
@@ -325,7 +338,7 @@ fn monitors(s: &mut Session, desc: &str, sc: &Scenario, tr: &Trace) {
 			if k >= 2 {
 				let (ppst, _, _, _) = &tr.per_cb[k - 2];
 				let frozen = |x: &PlaybackState| matches!(x, PlaybackState::Paused | PlaybackState::WaitingToResume | PlaybackState::Stopped);
-				if frozen(pst) && frozen(ppst) && *pst == *ppst && pos != ppos && !(sc.cbs[k - 1].resume.is_some() || sc.cbs[k - 1].pause.is_some() || sc.cbs[k - 1].stop.is_some()) {
+				if check_pos && frozen(pst) && frozen(ppst) && *pst == *ppst && pos != ppos && !(cbs[k - 1].resume.is_some() || cbs[k - 1].pause.is_some() || cbs[k - 1].stop.is_some()) {
 					s.fail(desc.to_string(), format!("callback {k}: position moved from {ppos} to {pos} while the state was {pst:?}"), None);
 				}
 			}
@@ -470,6 +483,992 @@ fn manager_scenarios(s: &mut Session, r: &mut Rng, count: u64) {
 	}
 }
 
+// ================================================================================================
+// streaming sounds: a scripted decoder of DC frames whose calls wait for a permit from the harness, so the content
+// of the frame ring at every callback is exactly known (c10.rs style pacing, public API only)
+// ================================================================================================
+const WAIT: Duration = Duration::from_secs(5);
+
+#[derive(Default)]
+struct PaceState {
+	free: bool,
+	permits: u64,
+	waiting: bool,
+	started: u64,
+	/// decode calls that returned frames
+	ok_calls: u64,
+	failed: bool,
+	dropped: bool,
+}
+struct Pace {
+	m: Mutex<PaceState>,
+	cv: Condvar,
+}
+impl Pace {
+	fn new() -> Arc<Pace> {
+		Arc::new(Pace { m: Mutex::new(PaceState::default()), cv: Condvar::new() })
+	}
+	/// the decoder thread: block until the harness allows the call
+	fn gate(&self) {
+		let mut g = self.m.lock().unwrap();
+		if !g.free {
+			g.waiting = true;
+			self.cv.notify_all();
+			while g.permits == 0 && !g.free {
+				g = self.cv.wait(g).unwrap();
+			}
+			if !g.free {
+				g.permits -= 1;
+			}
+			g.waiting = false;
+		}
+		g.started += 1;
+	}
+	/// grant one call and wait until the thread is blocked in the next one, or has ended; false = timed out
+	fn permit(&self) -> bool {
+		let mut g = self.m.lock().unwrap();
+		if g.dropped || !g.waiting {
+			return true;
+		}
+		let gen = g.started;
+		g.permits += 1;
+		self.cv.notify_all();
+		let deadline = Instant::now() + WAIT;
+		while !(g.started > gen && (g.waiting || g.dropped)) {
+			let left = deadline.saturating_duration_since(Instant::now());
+			if left.is_zero() {
+				return false;
+			}
+			g = self.cv.wait_timeout(g, left).unwrap().0;
+		}
+		true
+	}
+	fn wait_blocked(&self) -> bool {
+		let mut g = self.m.lock().unwrap();
+		let deadline = Instant::now() + WAIT;
+		while !(g.waiting || g.dropped) {
+			let left = deadline.saturating_duration_since(Instant::now());
+			if left.is_zero() {
+				return false;
+			}
+			g = self.cv.wait_timeout(g, left).unwrap().0;
+		}
+		true
+	}
+	fn set_free(&self) {
+		let mut g = self.m.lock().unwrap();
+		g.free = true;
+		self.cv.notify_all();
+	}
+	/// (decode calls that delivered, failed, thread ended)
+	fn snapshot(&self) -> (u64, bool, bool) {
+		let g = self.m.lock().unwrap();
+		(g.ok_calls, g.failed, g.dropped)
+	}
+}
+
+/// frames are all 1.0 (output == gain); packet k has `packets[k]` frames; decode call number `fail_at` fails
+struct DcDecoder {
+	pace: Arc<Pace>,
+	packets: Vec<usize>,
+	fail_at: Option<u64>,
+	cursor: usize,
+	calls: u64,
+}
+impl Decoder for DcDecoder {
+	type Error = i128;
+	fn sample_rate(&self) -> u32 {
+		SR
+	}
+	fn num_frames(&self) -> usize {
+		self.packets.iter().sum()
+	}
+	fn decode(&mut self) -> Result<Vec<Frame>, i128> {
+		self.pace.gate();
+		self.calls += 1;
+		if self.fail_at == Some(self.calls) || self.cursor >= self.packets.len() {
+			self.pace.m.lock().unwrap().failed = true;
+			return Err(1000 + self.calls as i128);
+		}
+		let len = self.packets[self.cursor];
+		self.cursor += 1;
+		self.pace.m.lock().unwrap().ok_calls += 1;
+		Ok(vec![Frame::new(1.0, 1.0); len])
+	}
+	fn seek(&mut self, index: usize) -> Result<usize, i128> {
+		// only the constructor's seek(0) is ever made (no loop region, no seek commands)
+		let mut k = 0;
+		let mut i = index;
+		while k < self.packets.len() && i >= self.packets[k] {
+			i -= self.packets[k];
+			k += 1;
+		}
+		self.cursor = k;
+		Ok(self.packets[..k].iter().sum())
+	}
+}
+impl Drop for DcDecoder {
+	fn drop(&mut self) {
+		let mut g = self.pace.m.lock().unwrap();
+		g.dropped = true;
+		self.pace.cv.notify_all();
+	}
+}
+
+/// the harness's account of what the decoder thread has done so far (read only when the thread is blocked or gone)
+#[derive(Default)]
+struct Feed {
+	ok_seen: u64,
+	end_seen: bool,
+	err_seen: bool,
+	pushed: usize,
+	timeout: bool,
+}
+impl Feed {
+	/// grants `permits` calls (none once the sound is Stopped: a stopped sound's thread ends without finishing its
+	/// packet) and returns what reached the sound since the last call: frames pushed (real?, index), flags
+	fn step(&mut self, pace: &Pace, packets: &[usize], permits: usize, stopped: bool) -> (Vec<(bool, usize)>, u8) {
+		// the thread must be in its next call (or gone) before a permit can be granted to it
+		if !pace.wait_blocked() {
+			self.timeout = true;
+		}
+		if !stopped {
+			for _ in 0..permits {
+				if !pace.permit() {
+					self.timeout = true;
+				}
+			}
+		}
+		let (ok, failed, dropped) = pace.snapshot();
+		let mut push = vec![];
+		for k in self.ok_seen..ok {
+			for _ in 0..packets[k as usize] {
+				push.push((true, self.pushed));
+				self.pushed += 1;
+			}
+		}
+		self.ok_seen = ok;
+		let mut flags = 0u8;
+		if dropped && !failed && ok as usize == packets.len() && !self.end_seen {
+			if packets.iter().sum::<usize>() == 0 {
+				// a stream without frames: the scheduler pushes one silent frame (index 0) and reports the end
+				push.push((false, 0));
+			}
+			self.end_seen = true;
+			flags |= 1;
+		}
+		if dropped && failed && !self.err_seen {
+			self.err_seen = true;
+			flags |= 2;
+		}
+		(push, flags)
+	}
+}
+
+#[derive(Clone, Debug)]
+struct SCb {
+	permits: usize,
+	cb: Cb,
+}
+#[derive(Clone, Debug)]
+struct SScenario {
+	packets: Vec<usize>,
+	fail_at: Option<u64>,
+	st: Start,
+	fade_in: Option<Tw>,
+	cbs: Vec<SCb>,
+}
+struct STrace {
+	tr: Trace,
+	/// per callback: what the decoder delivered before it, flags newly raised (1 end, 2 error)
+	env: Vec<(Vec<(bool, usize)>, u8)>,
+	/// per callback: the error flag was up before the callback started
+	err_before: Vec<bool>,
+	timeout: bool,
+}
+
+fn stream_data(ids: &[ClockId], pace: &Arc<Pace>, packets: &[usize], fail_at: Option<u64>, st: &Start, fade_in: &Option<Tw>) -> StreamingSoundData<i128> {
+	let dec = DcDecoder { pace: pace.clone(), packets: packets.to_vec(), fail_at, cursor: 0, calls: 0 };
+	let mut d = StreamingSoundData::from_decoder(dec).start_time(mk_start(ids, st));
+	if let Some(t) = fade_in {
+		d = d.fade_in_tween(mk_tween(ids, t));
+	}
+	d
+}
+
+fn run_stream(ids: &[ClockId], sc: &SScenario) -> STrace {
+	let _ = kira::verif::take_powf32_log();
+	let pace = Pace::new();
+	let mut env = vec![];
+	let mut err_before = vec![];
+	let mut feed = Feed::default();
+	let mut per_cb = vec![];
+	let mut per_call = vec![];
+	let r = catch(|| {
+		let (mut sound, mut handle) = stream_data(ids, &pace, &sc.packets, sc.fail_at, &sc.st, &sc.fade_in).into_sound().unwrap();
+		let mut obs = vec![];
+		let dt = 1.0 / SR as f64;
+		for (cbi, scb) in sc.cbs.iter().enumerate() {
+			let cb = &scb.cb;
+			let e = feed.step(&pace, &sc.packets, scb.permits, handle.state() == PlaybackState::Stopped);
+			env.push(e);
+			err_before.push(feed.err_seen);
+			if let Some(t) = &cb.pause {
+				handle.pause(mk_tween(ids, t));
+			}
+			if let Some((s, t)) = &cb.resume {
+				handle.resume_at(mk_start(ids, s), mk_tween(ids, t));
+			}
+			if let Some(t) = &cb.stop {
+				handle.stop(mk_tween(ids, t));
+			}
+			sound.on_start_processing();
+			let pos = handle.position();
+			let info = build_info(ids, &cb.clocks);
+			let mut outs: Vec<f32> = vec![];
+			for len in &cb.lens {
+				let mut buf = vec![Frame::new(7.0, 7.0); *len];
+				sound.process(&mut buf, dt, &info);
+				let mut call_outs = vec![];
+				for f in &buf {
+					call_outs.push(f.left);
+					if f.left.to_bits() != f.right.to_bits() {
+						call_outs.push(f32::NAN);
+					}
+				}
+				outs.extend(call_outs.iter().copied());
+				per_call.push((cbi, handle.state(), call_outs));
+			}
+			let st = handle.state();
+			obs.push(state_code(st));
+			obs.push((pos * SR as f64) as i128);
+			obs.push(sound.finished() as i128);
+			obs.extend(outs.iter().map(|x| obs32(*x)));
+			per_cb.push((st, pos, sound.finished(), outs));
+		}
+		drop(sound);
+		drop(handle);
+		obs
+	});
+	// let the thread go: it sees the abandoned ring (or Stopped, the end, its error) and ends by itself
+	pace.set_free();
+	let tab = kira::verif::take_powf32_log();
+	let timeout = feed.timeout;
+	let tr = match r {
+		Outcome::Ok(obs) => Trace { obs, tab, per_cb, per_call, panicked: false },
+		Outcome::Panic(c) => Trace { obs: vec![1000 + c], tab, per_cb, per_call, panicked: true },
+		Outcome::Hang => Trace { obs: vec![2000], tab, per_cb, per_call, panicked: true },
+	};
+	STrace { tr, env, err_before, timeout }
+}
+
+fn cb_term(cb: &Cb) -> String {
+	format!(
+		"RCb {} {} {} [{}] {} [{}]",
+		opt(&cb.pause, tw_term),
+		opt(&cb.resume, |(s, t)| format!("({}, {})", start_term(s), tw_term(t))),
+		opt(&cb.stop, tw_term),
+		cb.lens.iter().map(|l| l.to_string()).collect::<Vec<_>>().join("; "),
+		f64_bits_z(1.0 / SR as f64),
+		cb.clocks.iter().map(|(p, t, k, f)| format!("({}, {}, {}, {})", *p as u8, *t as u8, k, f64_bits_z(*f))).collect::<Vec<_>>().join("; ")
+	)
+}
+fn tab_term(tab: &[(u32, u32, u32)]) -> String {
+	let mut t: Vec<(u32, u32, u32)> = tab.to_vec();
+	t.sort();
+	t.dedup();
+	t.iter().map(|(a, b, c)| format!("({}, {}, {})", a, b, c)).collect::<Vec<_>>().join("; ")
+}
+fn stream_term(st: &Start, fade_in: &Option<Tw>, cbs: &[&Cb], env: &[(Vec<(bool, usize)>, u8)], tab: &[(u32, u32, u32)]) -> String {
+	let cbs = cbs
+		.iter()
+		.zip(env.iter())
+		.map(|(cb, (push, flags))| format!("RSCb [{}] {} ({})", push.iter().map(|(p, i)| format!("({}, {})", *p as u8, i)).collect::<Vec<_>>().join("; "), flags, cb_term(cb)))
+		.collect::<Vec<_>>()
+		.join("; ");
+	format!("CStream 0 {} {} [{}] [{}]", start_term(st), opt(fade_in, tw_term), cbs, tab_term(tab))
+}
+fn key_of(t: &str) -> String {
+	let mut h = 1469598103934665603u64;
+	for b in t.bytes() {
+		h = (h ^ b as u64).wrapping_mul(1099511628211);
+	}
+	format!("{h:x}")
+}
+
+fn gen_cmds(r: &mut Rng, cb: &mut Cb) {
+	match r.below(7) {
+		0 | 1 => cb.pause = Some(gen_tw(r, true)),
+		2 | 3 => cb.resume = Some((if r.chance(1, 2) { gen_start(r) } else { Start::Imm }, gen_tw(r, false))),
+		4 => cb.stop = Some(gen_tw(r, true)),
+		5 => {
+			cb.pause = Some(gen_tw(r, false));
+			cb.resume = Some((Start::Imm, gen_tw(r, false)));
+		}
+		_ => {
+			cb.stop = Some(gen_tw(r, false));
+			cb.pause = Some(gen_tw(r, false));
+		}
+	}
+}
+fn gen_stream_scenario(r: &mut Rng) -> SScenario {
+	let npk = if r.chance(1, 12) { 0 } else { r.range(1, 6) as usize };
+	let packets: Vec<usize> = (0..npk).map(|_| r.range(1, 6) as usize).collect();
+	let fail_at = if r.chance(1, 3) { Some(r.range(1, npk as i64 + 1) as u64) } else { None };
+	let st = if r.chance(1, 4) { gen_start(r) } else { Start::Imm };
+	let fade_in = if r.chance(1, 5) { Some(gen_tw(r, false)) } else { None };
+	let ncb = r.range(4, 10) as usize;
+	// how eager the decoder is: mostly behind (starved), sometimes ahead
+	let eager = r.below(3);
+	let mut cbs = vec![];
+	for k in 0..ncb {
+		let mut cb = Cb { pause: None, resume: None, stop: None, lens: vec![], clocks: gen_clocks(r, k as u64) };
+		if r.chance(2, 5) {
+			gen_cmds(r, &mut cb);
+		}
+		for _ in 0..r.range(1, 2) {
+			cb.lens.push(*r.pick(&[1usize, 2, 3, 4, 5, 8]));
+		}
+		let permits = match eager {
+			0 => if r.chance(1, 4) { 1 } else { 0 },
+			1 => r.below(2) as usize,
+			_ => r.range(0, 3) as usize,
+		};
+		cbs.push(SCb { permits, cb });
+	}
+	SScenario { packets, fail_at, st, fade_in, cbs }
+}
+
+/// the clauses that need no model: a decoder error stops the sound in the next processed callback whatever its
+/// state; Stopped is final and silent; Paused / WaitingToResume are silent; finished() <-> Stopped
+fn stream_monitors(s: &mut Session, desc: &str, sc: &SScenario, st: &STrace) {
+	if st.timeout {
+		s.fail(desc.to_string(), "the decoder thread did not reach its next call (or end) within 5 s".into(), None);
+		return;
+	}
+	let cbs: Vec<Cb> = sc.cbs.iter().map(|c| c.cb.clone()).collect();
+	monitors_on(s, desc, &cbs, &st.tr, false);
+	if st.tr.panicked {
+		return;
+	}
+	for (k, (state, _pos, fin, outs)) in st.tr.per_cb.iter().enumerate() {
+		if st.err_before[k] {
+			if *state != PlaybackState::Stopped || !*fin {
+				s.fail(desc.to_string(), format!("callback {k}: the decoder had failed before this callback, yet after it the state is {state:?} (finished() = {fin}); a decoder error must leave the sound Stopped"), None);
+				break;
+			}
+			if outs.iter().any(|x| *x != 0.0) {
+				s.fail(desc.to_string(), format!("callback {k}: audio emitted in a callback that started after the decoder had failed"), None);
+				break;
+			}
+		}
+	}
+}
+
+fn stream_history_scenarios(s: &mut Session, r: &mut Rng, ids: &[ClockId], count: u64) {
+	for _ in 0..count {
+		let sc = gen_stream_scenario(r);
+		let st = run_stream(ids, &sc);
+		let cbs: Vec<&Cb> = sc.cbs.iter().map(|c| &c.cb).collect();
+		let t = stream_term(&sc.st, &sc.fade_in, &cbs[..st.env.len().min(cbs.len())], &st.env, &st.tr.tab);
+		let desc = format!("streaming sound, packets {:?}, decode call that fails: {:?}, permits per callback {:?}: {}", sc.packets, sc.fail_at, sc.cbs.iter().map(|c| c.permits).collect::<Vec<_>>(), t);
+		if !st.timeout && !st.tr.panicked {
+			s.case("stream_history", t.clone(), &st.tr.obs, Some(key_of(&t)));
+		} else {
+			s.eval_only("stream_history_unmodelled");
+		}
+		for x in st.tr.per_cb.iter().map(|x| x.0) {
+			s.count(&format!("stream_state_{x:?}"));
+		}
+		if st.err_before.iter().any(|x| *x) {
+			s.count("stream_decoder_error_seen");
+		}
+		stream_monitors(s, &desc, &sc, &st);
+	}
+}
+
+/// exactly `k` frames as a tween duration (k even: k/1024 s is a whole number of ns)
+fn frames_tw(k: u64, easing: Easing) -> Tw {
+	assert!(k % 2 == 0);
+	Tw { start: Start::Imm, dur_ns: k / 2 * 1_953_125, easing }
+}
+
+/// scenarios with a known answer: a fade command on a STARVED stream (nothing delivered yet, or everything delivered
+/// so far played out), optionally a decoder error while Paused / WaitingToResume / waiting for the start time
+fn stream_law_scenarios(s: &mut Session, r: &mut Rng, ids: &[ClockId], count: u64) {
+	for i in 0..count {
+		// ---- (1) fade-driven steps complete on time although the stream is starved
+		let delivered = if r.chance(1, 2) { 0 } else { r.range(1, 5) as usize };
+		let chunk = *r.pick(&[1usize, 2, 4, 8]);
+		let k = if r.chance(1, 5) { 0 } else { (r.below(16) + 1) * 2 };
+		let kind = i % 3; // 0 pause, 1 stop, 2 pause (instant) then resume with the fade
+		let e = gen_easing(r);
+		let mut cbs = vec![];
+		// play out what was delivered: enough callbacks, then at least one more
+		let lead = (delivered + 2) / chunk + 2;
+		for j in 0..lead {
+			cbs.push(SCb { permits: if j == 0 { delivered.min(1) } else { 0 }, cb: Cb { pause: None, resume: None, stop: None, lens: vec![chunk], clocks: vec![] } });
+		}
+		let after = (k as usize + chunk - 1) / chunk + 4;
+		for j in 0..after {
+			let mut cb = Cb { pause: None, resume: None, stop: None, lens: vec![chunk], clocks: vec![] };
+			if j == 0 {
+				match kind {
+					0 => cb.pause = Some(frames_tw(k, e)),
+					1 => cb.stop = Some(frames_tw(k, e)),
+					_ => {
+						cb.pause = Some(frames_tw(0, Easing::Linear));
+					}
+				}
+			}
+			if j == 1 && kind == 2 {
+				cb.resume = Some((Start::Imm, frames_tw(k, e)));
+			}
+			cbs.push(SCb { permits: 0, cb });
+		}
+		// one packet holds everything delivered; a second one is never granted, so the end is never reached
+		let packets = if delivered > 0 { vec![delivered, 3] } else { vec![3] };
+		let sc = SScenario { packets, fail_at: None, st: Start::Imm, fade_in: None, cbs };
+		let st = run_stream(ids, &sc);
+		let cbrefs: Vec<&Cb> = sc.cbs.iter().map(|c| &c.cb).collect();
+		let t = stream_term(&sc.st, &sc.fade_in, &cbrefs[..st.env.len().min(cbrefs.len())], &st.env, &st.tr.tab);
+		let what = ["pause", "stop", "instant pause, then resume"][kind as usize];
+		let desc = format!("starved stream ({delivered} frames delivered and played out, then nothing), {what} with {e:?} over {k} frames at callback {lead}, chunks of {chunk}: {t}");
+		if !st.timeout && !st.tr.panicked {
+			s.case("stream_fade_starved", t.clone(), &st.tr.obs, Some(key_of(&t)));
+		}
+		stream_monitors(s, &desc, &sc, &st);
+		if st.timeout || st.tr.panicked {
+			continue;
+		}
+		// the stream is starved from callback `lead - 1` on: the last lead callback must be silent although Playing
+		if let Some((stt, _, _, outs)) = st.tr.per_cb.get(lead - 1) {
+			if *stt != PlaybackState::Playing || outs.iter().any(|x| *x != 0.0) {
+				s.fail(desc.clone(), format!("callback {}: expected a starved, Playing, silent stream; got {stt:?} {outs:?}", lead - 1), None);
+				continue;
+			}
+		}
+		let cmd_at = if kind == 2 { lead + 1 } else { lead };
+		let (during, target) = match kind {
+			0 => (PlaybackState::Pausing, PlaybackState::Paused),
+			1 => (PlaybackState::Stopping, PlaybackState::Stopped),
+			_ => (PlaybackState::Resuming, PlaybackState::Playing),
+		};
+		let need = ((k as usize + chunk - 1) / chunk).max(1); // callbacks after the command until the tween is complete
+		for (j, (stt, _, _, outs)) in st.tr.per_cb.iter().enumerate().skip(cmd_at) {
+			let n = j - cmd_at + 1;
+			let want = if n >= need { target } else { during };
+			if *stt != want {
+				s.fail(desc.clone(), format!("callback {n} after the command: state {stt:?}, expected {want:?} (the tween of {k} frames completes in callback {need}; a starved stream keeps its life cycle)"), None);
+				break;
+			}
+			if outs.iter().any(|x| *x != 0.0) {
+				s.fail(desc.clone(), format!("callback {n} after the command: a starved stream emitted audio"), None);
+				break;
+			}
+		}
+		if kind == 2 {
+			if let Some((stt, _, _, _)) = st.tr.per_cb.get(lead) {
+				if *stt != PlaybackState::Paused {
+					s.fail(desc.clone(), format!("pause with an instant tween on a starved stream: state {stt:?} after the callback, expected Paused"), None);
+				}
+			}
+		}
+
+		// ---- (2) a decoder error while the sound is not advancing
+		let mode = r.below(5); // 0 Paused, 1 WaitingToResume (delayed), 2 WaitingToResume (clock), 3 start time pending (clock), 4 Pausing
+		let delivered = r.range(0, 3) as usize;
+		let mut packets: Vec<usize> = (0..delivered).map(|_| r.range(1, 3) as usize).collect();
+		packets.push(2);
+		let fail_at = delivered as u64 + 1;
+		let clock = vec![(true, false, 0u64, 0.0f64)]; // present, not ticking: its time never comes
+		let mut cbs = vec![];
+		let pre = r.range(1, 3) as usize;
+		for j in 0..pre {
+			let mut cb = Cb { pause: None, resume: None, stop: None, lens: vec![chunk], clocks: clock.clone() };
+			if j == 0 {
+				match mode {
+					0 => cb.pause = Some(frames_tw(0, Easing::Linear)),
+					1 => cb.resume = Some((Start::Del(3_000_000_000), frames_tw(2, Easing::Linear))),
+					2 => cb.resume = Some((Start::Clk { clock: 0, ticks: 3, fr: 0.0 }, frames_tw(2, Easing::Linear))),
+					3 => {}
+					_ => cb.pause = Some(frames_tw(64, Easing::Linear)),
+				}
+			}
+			cbs.push(SCb { permits: if j < delivered { 1 } else { 0 }, cb });
+		}
+		let fail_cb = cbs.len();
+		// grant the remaining good packets and the failing call before this callback
+		let left = delivered.saturating_sub(pre) + 1;
+		for j in 0..3 {
+			cbs.push(SCb { permits: if j == 0 { left } else { 0 }, cb: Cb { pause: None, resume: None, stop: None, lens: vec![chunk], clocks: clock.clone() } });
+		}
+		let sc = SScenario { packets, fail_at: Some(fail_at), st: if mode == 3 { Start::Clk { clock: 0, ticks: 2, fr: 0.0 } } else { Start::Imm }, fade_in: None, cbs };
+		let st = run_stream(ids, &sc);
+		let cbrefs: Vec<&Cb> = sc.cbs.iter().map(|c| &c.cb).collect();
+		let t = stream_term(&sc.st, &sc.fade_in, &cbrefs[..st.env.len().min(cbrefs.len())], &st.env, &st.tr.tab);
+		let what = ["Paused", "WaitingToResume (delayed)", "WaitingToResume (clock not ticking)", "waiting for its own start time (clock not ticking)", "Pausing"][mode as usize];
+		let desc = format!("stream whose decoder fails (decode call {fail_at}) while the sound is {what}; the error is raised before callback {fail_cb}: {t}");
+		if !st.timeout && !st.tr.panicked {
+			s.case("stream_error_not_advancing", t.clone(), &st.tr.obs, Some(key_of(&t)));
+		}
+		stream_monitors(s, &desc, &sc, &st);
+		if st.timeout || st.tr.panicked {
+			continue;
+		}
+		if !st.err_before.get(fail_cb).copied().unwrap_or(false) || (fail_cb > 0 && st.err_before[fail_cb - 1]) {
+			s.fail(desc.clone(), "harness: the scripted error was not raised where the scenario expects it".into(), None);
+			continue;
+		}
+		if fail_cb > 0 {
+			let want = match mode {
+				0 => PlaybackState::Paused,
+				1 | 2 => PlaybackState::WaitingToResume,
+				3 => PlaybackState::Playing,
+				_ => PlaybackState::Pausing,
+			};
+			if st.tr.per_cb[fail_cb - 1].0 != want {
+				s.fail(desc.clone(), format!("before the error the state is {:?}, expected {want:?}", st.tr.per_cb[fail_cb - 1].0), None);
+			}
+		}
+		s.count(&format!("stream_error_while_{}", ["paused", "waiting_delayed", "waiting_clock", "start_pending", "pausing"][mode as usize]));
+	}
+}
+
+// ================================================================================================
+// sounds that have ended before their first callback: reverse playback with nothing to play
+// ================================================================================================
+#[derive(Clone, Debug)]
+enum EndedKind {
+	/// `n` frames, reverse, start position n + extra samples
+	PastEnd { n: usize, extra: usize },
+	/// start position given in seconds: exactly the duration
+	Duration { n: usize },
+	/// reverse on an empty slice of a sound of n frames
+	EmptySlice { n: usize, at: usize },
+	/// reverse on a sound without frames
+	NoFrames,
+}
+fn ended_data(ids: &[ClockId], kind: &EndedKind, lp: bool, st: &Start, fade_in: &Option<Tw>) -> StaticSoundData {
+	let mut settings = StaticSoundSettings::new().reverse(true).start_time(mk_start(ids, st));
+	if lp {
+		settings = settings.loop_region(Region::from(..));
+	}
+	if let Some(t) = fade_in {
+		settings = settings.fade_in_tween(mk_tween(ids, t));
+	}
+	let (n, slice) = match kind {
+		EndedKind::PastEnd { n, extra } => {
+			settings = settings.start_position(PlaybackPosition::Samples(n + extra));
+			(*n, None)
+		}
+		EndedKind::Duration { n } => {
+			settings = settings.start_position(PlaybackPosition::Seconds(*n as f64 / SR as f64));
+			(*n, None)
+		}
+		EndedKind::EmptySlice { n, at } => (*n, Some((*at, *at))),
+		EndedKind::NoFrames => (0, None),
+	};
+	StaticSoundData { sample_rate: SR, frames: Arc::from(vec![Frame::new(1.0, 1.0); n]), settings, slice }
+}
+fn gen_ended(r: &mut Rng) -> EndedKind {
+	let n = r.range(1, 12) as usize;
+	match r.below(5) {
+		0 => EndedKind::PastEnd { n, extra: 0 },
+		1 => EndedKind::PastEnd { n, extra: r.range(1, 5) as usize },
+		2 => EndedKind::Duration { n },
+		3 => EndedKind::EmptySlice { n, at: r.below(n as u64 + 1) as usize },
+		_ => EndedKind::NoFrames,
+	}
+}
+fn ended_frames(k: &EndedKind) -> usize {
+	match k {
+		EndedKind::PastEnd { n, .. } | EndedKind::Duration { n } => *n,
+		_ => 0,
+	}
+}
+
+fn ended_scenarios(s: &mut Session, r: &mut Rng, ids: &[ClockId], count: u64) {
+	for i in 0..count {
+		let kind = gen_ended(r);
+		let lp = r.chance(1, 4);
+		if i % 2 == 0 {
+			// ---- bare sound, against the model
+			let st = if r.chance(1, 4) { gen_start(r) } else { Start::Imm };
+			let fade_in = if r.chance(1, 5) { Some(gen_tw(r, false)) } else { None };
+			let mut cbs = vec![];
+			for k in 0..r.range(2, 5) as usize {
+				let mut cb = Cb { pause: None, resume: None, stop: None, lens: vec![*r.pick(&[1usize, 2, 3, 5])], clocks: gen_clocks(r, k as u64) };
+				if r.chance(1, 3) {
+					gen_cmds(r, &mut cb);
+				}
+				cbs.push(cb);
+			}
+			let mut initial: Option<PlaybackState> = None;
+			let tr = run_with(ids, &cbs, || {
+				let (sound, handle) = ended_data(ids, &kind, lp, &st, &fade_in).into_sound().unwrap();
+				initial = Some(handle.state());
+				(sound, handle)
+			});
+			let t = format!(
+				"CEnded {} {} {} {} [{}] [{}]",
+				ended_frames(&kind),
+				lp as u8,
+				start_term(&st),
+				opt(&fade_in, tw_term),
+				cbs.iter().map(cb_term).collect::<Vec<_>>().join("; "),
+				tab_term(&tr.tab)
+			);
+			let desc = format!("static sound played in reverse with nothing to play ({kind:?}), as a bare Sound: {t}");
+			s.case("ended_at_construction", t.clone(), &tr.obs, Some(key_of(&t)));
+			if tr.panicked {
+				s.fail(desc, "panicked".into(), None);
+				continue;
+			}
+			if initial != Some(PlaybackState::Stopped) {
+				s.fail(desc.clone(), format!("the handle reports {initial:?} right after construction; the sound has nothing to play and finished() is {:?}", tr.per_cb.first().map(|x| x.2)), None);
+			}
+			for (k, (stt, _, fin, outs)) in tr.per_cb.iter().enumerate() {
+				if *stt != PlaybackState::Stopped || !*fin || outs.iter().any(|x| *x != 0.0) {
+					s.fail(desc.clone(), format!("callback {k}: state {stt:?}, finished() = {fin}, output {outs:?}; expected Stopped, true, silence"), None);
+					break;
+				}
+			}
+		} else {
+			// ---- through a manager, on the main track or a sub-track of capacity 1
+			let on_sub = r.chance(1, 2);
+			let mut m = manager(SR, *r.pick(&[1usize, 4, 16]), Capacities::default(), MainTrackBuilder::new().sound_capacity(1));
+			let mut sub: Option<TrackHandle> = if on_sub { Some(m.add_sub_track(TrackBuilder::new().sound_capacity(1)).unwrap()) } else { None };
+			m.backend_mut().callback(1, 2);
+			let desc = format!("static sound played in reverse with nothing to play ({kind:?}, loop {lp}) on {} of capacity 1", if on_sub { "a sub-track" } else { "the main track" });
+			s.eval_only("ended_at_construction_manager");
+			let data = ended_data(ids, &kind, lp, &Start::Imm, &None);
+			let played = catch(|| match sub.as_mut() {
+				Some(t) => t.play(data.clone()),
+				None => m.play(data.clone()),
+			});
+			let h = match played {
+				Outcome::Ok(Ok(h)) => h,
+				Outcome::Ok(Err(_)) => {
+					s.fail(desc, "play() was refused on an empty track".into(), None);
+					continue;
+				}
+				_ => {
+					s.fail(desc, "play() panicked".into(), None);
+					continue;
+				}
+			};
+			let num = |m: &mut Mgr, sub: &Option<TrackHandle>| match sub {
+				Some(t) => t.num_sounds(),
+				None => m.main_track().num_sounds(),
+			};
+			let mut seen_loaded = num(&mut m, &sub) > 0;
+			let mut ok = true;
+			for k in 0..4 {
+				let out = m.backend_mut().callback(*r.pick(&[1usize, 3, 8]), 2);
+				let n = num(&mut m, &sub);
+				let stt = h.state();
+				if out.iter().any(|x| *x != 0.0) {
+					s.fail(desc.clone(), format!("callback {k}: audio from a sound with nothing to play"), None);
+					ok = false;
+				}
+				if n > 0 {
+					seen_loaded = true;
+				}
+				if (n == 0 && (seen_loaded || k >= 1)) && stt != PlaybackState::Stopped {
+					s.fail(desc.clone(), format!("callback {k}: the track holds no sound any more (num_sounds = 0) but the handle reports {stt:?}; an unloaded sound must report Stopped"), None);
+					ok = false;
+				}
+				if stt != PlaybackState::Stopped {
+					s.fail(desc.clone(), format!("after callback {k} the handle reports {stt:?}; the sound had nothing to play (natural end: Stopped)"), None);
+					ok = false;
+				}
+				if !ok {
+					break;
+				}
+			}
+			if ok {
+				if num(&mut m, &sub) != 0 {
+					s.fail(desc.clone(), format!("still loaded after 4 callbacks (num_sounds = {})", num(&mut m, &sub)), None);
+				} else {
+					// the slot is reusable
+					let again = match sub.as_mut() {
+						Some(t) => t.play(sound_from_frames(SR, vec![Frame::new(1.0, 1.0); 2])).is_ok(),
+						None => m.play(sound_from_frames(SR, vec![Frame::new(1.0, 1.0); 2])).is_ok(),
+					};
+					if !again {
+						s.fail(desc.clone(), "the slot of the unloaded sound cannot be reused (capacity 1)".into(), None);
+					}
+				}
+			}
+		}
+	}
+}
+
+// ================================================================================================
+// through a real manager: commands issued between play() and the first callback; unloading; slot reuse
+// ================================================================================================
+#[derive(Clone, Debug)]
+enum MCmd {
+	Pause(Tw),
+	Stop(Tw),
+	ResumeAt(Start, Tw),
+}
+enum AnyHandle {
+	St(StaticSoundHandle),
+	Sm(StreamingSoundHandle<i128>),
+}
+impl AnyHandle {
+	fn state(&self) -> PlaybackState {
+		match self {
+			AnyHandle::St(h) => h.state(),
+			AnyHandle::Sm(h) => h.state(),
+		}
+	}
+	fn position(&self) -> f64 {
+		match self {
+			AnyHandle::St(h) => h.position(),
+			AnyHandle::Sm(h) => h.position(),
+		}
+	}
+	fn apply(&mut self, ids: &[ClockId], c: &MCmd) {
+		match (self, c) {
+			(AnyHandle::St(h), MCmd::Pause(t)) => h.pause(mk_tween(ids, t)),
+			(AnyHandle::St(h), MCmd::Stop(t)) => h.stop(mk_tween(ids, t)),
+			(AnyHandle::St(h), MCmd::ResumeAt(s, t)) => h.resume_at(mk_start(ids, s), mk_tween(ids, t)),
+			(AnyHandle::Sm(h), MCmd::Pause(t)) => h.pause(mk_tween(ids, t)),
+			(AnyHandle::Sm(h), MCmd::Stop(t)) => h.stop(mk_tween(ids, t)),
+			(AnyHandle::Sm(h), MCmd::ResumeAt(s, t)) => h.resume_at(mk_start(ids, s), mk_tween(ids, t)),
+		}
+	}
+}
+
+fn chunking(frames: usize, ibs: usize) -> Vec<usize> {
+	let mut v = vec![];
+	let mut left = frames;
+	while left > 0 {
+		let c = left.min(ibs);
+		v.push(c);
+		left -= c;
+	}
+	v
+}
+
+fn track_scenarios(s: &mut Session, r: &mut Rng, ids: &[ClockId], count: u64) {
+	for i in 0..count {
+		let streaming = i % 2 == 1;
+		let on_sub = r.chance(1, 3);
+		let ibs = *r.pick(&[1usize, 2, 4, 8, 16]);
+		let frames = *r.pick(&[1usize, 2, 4, 8]);
+		// the command: when (before callback `at`; 0 = between play() and the first callback), what
+		let at = if r.chance(2, 3) { 0 } else { r.range(1, 3) as usize };
+		let k = if r.chance(1, 2) { 0 } else { (r.below(12) + 1) * 2 };
+		let e = gen_easing(r);
+		let which = r.below(4);
+		let cmd = match which {
+			0 | 1 => MCmd::Pause(frames_tw(k, e)),
+			2 => MCmd::Stop(frames_tw(k, e)),
+			_ => MCmd::ResumeAt(Start::Del((r.below(6) + 1) * 1_953_125), frames_tw(k, e)),
+		};
+		let ncb = at + (k as usize + frames - 1) / frames + 5;
+		// the sound: static looping DC, or a stream that is fed one packet per callback for a while and then starves
+		let packets: Vec<usize> = (0..r.range(2, 4)).map(|_| r.range(1, 6) as usize).collect();
+		let feed_cbs = r.below(packets.len() as u64) as usize; // the last packet is never granted: no natural end
+		let mut m = manager(SR, ibs, Capacities::default(), MainTrackBuilder::new().sound_capacity(1));
+		let mut sub: Option<TrackHandle> = if on_sub { Some(m.add_sub_track(TrackBuilder::new().sound_capacity(1)).unwrap()) } else { None };
+		m.backend_mut().callback(1, 2);
+		let _ = kira::verif::take_powf32_log();
+		let pace = Pace::new();
+		let mut feed = Feed::default();
+		let played: Outcome<Option<AnyHandle>> = catch(|| {
+			if streaming {
+				let d = stream_data(ids, &pace, &packets, None, &Start::Imm, &None);
+				match sub.as_mut() {
+					Some(t) => t.play(d).ok().map(AnyHandle::Sm),
+					None => m.play(d).ok().map(AnyHandle::Sm),
+				}
+			} else {
+				let d = StaticSoundData { sample_rate: SR, frames: Arc::from(vec![Frame::new(1.0, 1.0); 4]), settings: StaticSoundSettings::new().loop_region(Region::from(..)), slice: None };
+				match sub.as_mut() {
+					Some(t) => t.play(d).ok().map(AnyHandle::St),
+					None => m.play(d).ok().map(AnyHandle::St),
+				}
+			}
+		});
+		let what = match &cmd {
+			MCmd::Pause(_) => format!("pause with {e:?} over {k} frames"),
+			MCmd::Stop(_) => format!("stop with {e:?} over {k} frames"),
+			MCmd::ResumeAt(st, _) => format!("resume_at({st:?}) with {e:?} over {k} frames"),
+		};
+		let desc = format!(
+			"{} played on {} (internal buffer {ibs}, callbacks of {frames} frames), {what} issued {}",
+			if streaming { format!("streaming DC sound (packets {packets:?}, one granted before each of the first {feed_cbs} callbacks)") } else { "looping static DC sound".to_string() },
+			if on_sub { "a sub-track" } else { "the main track" },
+			if at == 0 { "between play() and the first callback".to_string() } else { format!("before callback {}", at + 1) }
+		);
+		s.eval_only(if streaming { "track_stream" } else { "track_static" });
+		let mut h = match played {
+			Outcome::Ok(Some(h)) => h,
+			_ => {
+				s.fail(desc, "play() on an empty track failed or panicked".into(), None);
+				pace.set_free();
+				continue;
+			}
+		};
+		let num = |m: &mut Mgr, sub: &Option<TrackHandle>| match sub {
+			Some(t) => t.num_sounds(),
+			None => m.main_track().num_sounds(),
+		};
+		// per callback: state, position, outputs, num_sounds
+		let mut per: Vec<(PlaybackState, f64, Vec<f32>, usize)> = vec![];
+		let mut env = vec![];
+		let mut cbs: Vec<Cb> = vec![];
+		let mut bad_channels = false;
+		let res = catch(|| {
+			for j in 0..ncb {
+				if streaming {
+					env.push(feed.step(&pace, &packets, if j < feed_cbs { 1 } else { 0 }, h.state() == PlaybackState::Stopped));
+				}
+				let mut cb = Cb { pause: None, resume: None, stop: None, lens: chunking(frames, ibs), clocks: vec![] };
+				if j == at {
+					h.apply(ids, &cmd);
+					match &cmd {
+						MCmd::Pause(t) => cb.pause = Some(t.clone()),
+						MCmd::Stop(t) => cb.stop = Some(t.clone()),
+						MCmd::ResumeAt(st, t) => cb.resume = Some((st.clone(), t.clone())),
+					}
+				}
+				cbs.push(cb);
+				let out = m.backend_mut().callback(frames, 2);
+				let mut outs = vec![];
+				for c in out.chunks(2) {
+					outs.push(c[0]);
+					if c[0].to_bits() != c[1].to_bits() {
+						bad_channels = true;
+					}
+				}
+				per.push((h.state(), h.position(), outs, num(&mut m, &sub)));
+			}
+		});
+		let tab = kira::verif::take_powf32_log();
+		if !matches!(res, Outcome::Ok(())) {
+			s.fail(desc, "panic while driving the manager".into(), None);
+			pace.set_free();
+			continue;
+		}
+		if feed.timeout {
+			s.fail(desc, "the decoder thread did not reach its next call (or end) within 5 s".into(), None);
+			pace.set_free();
+			continue;
+		}
+		if bad_channels {
+			s.fail(desc.clone(), "left and right channels differ".into(), None);
+		}
+		// ---- the model: the same sound as a case, up to and including the callback in which it stops
+		if !on_sub {
+			let upto = per.iter().position(|x| x.0 == PlaybackState::Stopped).map(|p| p + 1).unwrap_or(per.len());
+			let mut obs = vec![];
+			for (stt, pos, outs, _) in &per[..upto] {
+				obs.push(state_code(*stt));
+				obs.push((pos * SR as f64) as i128);
+				obs.push((*stt == PlaybackState::Stopped) as i128);
+				obs.extend(outs.iter().map(|x| obs32(*x)));
+			}
+			let t = if streaming {
+				let refs: Vec<&Cb> = cbs[..upto].iter().collect();
+				stream_term(&Start::Imm, &None, &refs, &env[..upto], &tab)
+			} else {
+				format!("CSound 4 0 1 SImm None [{}] [{}]", cbs[..upto].iter().map(cb_term).collect::<Vec<_>>().join("; "), tab_term(&tab))
+			};
+			s.case(if streaming { "main_track_stream" } else { "main_track_static" }, t.clone(), &obs, Some(key_of(&t)));
+		}
+		// ---- the life cycle, from the moment the command was issued (callback index `at`)
+		let n_after = |j: usize| (j + 1 - at) * frames; // frames processed since the command, through callback j
+		let mut violated = false;
+		for (j, (stt, _, outs, _)) in per.iter().enumerate() {
+			if j < at {
+				if *stt != PlaybackState::Playing {
+					s.fail(desc.clone(), format!("callback {}: state {stt:?} before any command", j + 1), None);
+					violated = true;
+				}
+				continue;
+			}
+			let done = n_after(j) as u64 >= k.max(1);
+			let want: Vec<PlaybackState> = match &cmd {
+				MCmd::Pause(_) => vec![if done { PlaybackState::Paused } else { PlaybackState::Pausing }],
+				MCmd::Stop(_) => vec![if done { PlaybackState::Stopped } else { PlaybackState::Stopping }],
+				// the delay, then the fade-in: exact instants are the model's business
+				MCmd::ResumeAt(..) => vec![PlaybackState::WaitingToResume, PlaybackState::Resuming, PlaybackState::Playing],
+			};
+			if !want.contains(stt) {
+				s.fail(desc.clone(), format!("after callback {} ({} frames after the command) the handle reports {stt:?}, the life cycle prescribes {want:?}", j + 1, n_after(j)), None);
+				violated = true;
+				break;
+			}
+			if matches!(stt, PlaybackState::Paused | PlaybackState::WaitingToResume | PlaybackState::Stopped) && k == 0 && j == at && outs.iter().any(|x| *x != 0.0) && !matches!(cmd, MCmd::ResumeAt(..)) {
+				s.fail(desc.clone(), format!("callback {}: the command had an instant tween and was issued before this callback, yet the callback emitted {outs:?}", j + 1), None);
+				violated = true;
+				break;
+			}
+			if matches!(stt, PlaybackState::WaitingToResume) && outs.iter().any(|x| *x != 0.0) {
+				s.fail(desc.clone(), format!("callback {}: audio while WaitingToResume", j + 1), None);
+				violated = true;
+				break;
+			}
+		}
+		// ---- unloading: loaded while not Stopped; gone exactly one callback after Stopped; never "gone but not Stopped"
+		let stopped_at = per.iter().position(|x| x.0 == PlaybackState::Stopped);
+		for (j, (stt, _, _, n)) in per.iter().enumerate() {
+			if *n == 0 && *stt != PlaybackState::Stopped {
+				s.fail(desc.clone(), format!("callback {}: num_sounds = 0 but the handle reports {stt:?}", j + 1), None);
+				violated = true;
+				break;
+			}
+			match stopped_at {
+				Some(p) if j > p => {
+					if *n != 0 {
+						s.fail(desc.clone(), format!("callback {}: Stopped since callback {} but still loaded (num_sounds = {n})", j + 1, p + 1), None);
+						violated = true;
+						break;
+					}
+				}
+				_ => {
+					if *n != 1 {
+						s.fail(desc.clone(), format!("callback {}: num_sounds = {n} while the sound is {stt:?}", j + 1), None);
+						violated = true;
+						break;
+					}
+				}
+			}
+		}
+		if let (Some(p), false) = (stopped_at, violated) {
+			if p + 1 < per.len() {
+				let again = match sub.as_mut() {
+					Some(t) => t.play(sound_from_frames(SR, vec![Frame::new(1.0, 1.0); 2])).is_ok(),
+					None => m.play(sound_from_frames(SR, vec![Frame::new(1.0, 1.0); 2])).is_ok(),
+				};
+				if !again {
+					s.fail(desc.clone(), "the slot of the unloaded sound cannot be reused (track capacity 1)".into(), None);
+				}
+				s.count("slot_reused");
+			}
+		} else if stopped_at.is_none() && !violated {
+			// a live sound keeps its slot: a capacity-1 track refuses another one
+			let refused = match sub.as_mut() {
+				Some(t) => matches!(t.play(sound_from_frames(SR, vec![Frame::new(1.0, 1.0); 2])), Err(PlaySoundError::SoundLimitReached)),
+				None => matches!(m.play(sound_from_frames(SR, vec![Frame::new(1.0, 1.0); 2])), Err(PlaySoundError::SoundLimitReached)),
+			};
+			if !refused {
+				s.fail(desc.clone(), "a capacity-1 track accepted a second sound while the first is still loaded".into(), None);
+			}
+		}
+		drop(h);
+		drop(sub);
+		drop(m);
+		pace.set_free();
+	}
+}
+
 pub fn run(args: &Args) {
 	let mut rng = Rng::new(args.seed ^ 0xC03);
 	let n: u64 = (if args.thorough { 8_000 } else { 800 }) * args.budget_mul;
@@ -502,5 +1501,9 @@ pub fn run(args: &Args) {
 	}
 	law_scenarios(&mut s, &mut rng, &ids, n / 4);
 	manager_scenarios(&mut s, &mut rng, n / 8);
+	stream_history_scenarios(&mut s, &mut rng, &ids, n / 2);
+	stream_law_scenarios(&mut s, &mut rng, &ids, n / 8);
+	ended_scenarios(&mut s, &mut rng, &ids, n / 8);
+	track_scenarios(&mut s, &mut rng, &ids, n / 4);
 	s.finish();
 }
